@@ -145,7 +145,14 @@ class Normaliser:
             if not b.is_coroutine or self._crate_of(p) not in self.crates:
                 continue
             ctor = prog.bodies.get(b.j.get('parent') or '')
-            if ctor is None or ctor.kind not in ('Fn', 'AssocFn') or ctor.j.get('vis') == 'pub' or ctor.j.get('impl_trait') or ctor.j.get('in_trait'):
+            if ctor is None or ctor.kind not in ('Fn', 'AssocFn') or ctor.j.get('in_trait'):
+                continue
+            tr_ = ctor.j.get('impl_trait')
+            if tr_:
+                # an async method of a single-impl helper trait of the analysed crates is awaited like a private async fn
+                if self._crate_of(tr_) not in self.crates or self.trait_impls.get(tr_, 0) != 1:
+                    continue
+            elif ctor.j.get('vis') == 'pub':
                 continue
             if ctor.path in self.keep or ctor.name in self.keep or b.path in self.keep or b.name in self.keep or only_newtypes:
                 continue
@@ -193,7 +200,13 @@ class Normaliser:
 
     def _crate_of(self, path):
         p = path.lstrip('<')
-        return p.split('::')[0]
+        c0 = p.split('::')[0]
+        if c0 not in self.crates and path.startswith('<') and ' as ' in path.split('>::')[0]:
+            # an impl of a trait of the analysed crates for a foreign type (`impl UrlList for [String]`) lives in the trait's crate
+            t0 = path.split('>::')[0].split(' as ', 1)[1].split('::')[0]
+            if t0 in self.crates:
+                return t0
+        return c0
 
     def _inlinable(self, b):
         if self._crate_of(b.path) not in self.crates:
@@ -321,9 +334,9 @@ class Normaliser:
                             inlined.append('fn-item-call:' + fi['k'].get('fn', '?')); changed = True
                             continue
                     cl = self._closure_of(bj, t['args'][0])
-                    if cl is not None and cl in self.prog.bodies and not self.prog.bodies[cl].is_coroutine and inlined.count(cl) < 3 \
+                    if cl is not None and cl in self.prog.bodies and not self.prog.bodies[cl].is_coroutine and inlined.count(cl) < 8 \
                             and self._crate_of(cl) in self.crates:
-                        self._inline_call(bj, x, self.prog.bodies[cl].j, closure=True)
+                        self._inline_call(bj, x, self.prog.bodies[cl].j, closure=True, const_env=getattr(self, '_last_closure_env', None))
                         inlined.append(cl); changed = True
         if not self.only_newtypes and thread_jumps(bj, enums=self.local_enums):
             inlined.append('jump-threading')
@@ -413,6 +426,8 @@ class Normaliser:
         tail = fn0.split('::')[-1]
         if tail in ('unwrap_or_default', 'unwrap_or', 'unwrap_or_else', 'map_or_else'):
             return self._desugar_option_default(bj, x, tail)
+        if tail == 'filter':
+            return self._desugar_option_filter(bj, x)
         if len(args) != 2:
             return False
         line = t.get('line', 0)
@@ -479,6 +494,55 @@ class Normaliser:
             bj['blocks'].append({'cleanup': False, 'stmts': [], 'term': {'k': 'unreachable', 'line': line}})
         return True
 
+
+
+    def _desugar_option_filter(self, bj, x):
+        """`o.filter(p)` => match o { Some(v) => if p(&v) { Some(v) } else { None }, None => None }"""
+        blk = bj['blocks'][x]
+        t = blk['term']
+        args = t.get('args', [])
+        if len(args) != 2 or 'k' in args[0]:
+            return False
+        o, f = args
+        op_place = o.get('m') or o.get('c')
+        oty = op_place.get('ty', '') or bj['locals'][op_place['l']]['ty']
+        if not oty.startswith('std::option::Option<'):
+            return False
+        line = t.get('line', 0)
+        dest = t['dest']
+        pay_ty = split_generic_args(oty)[0]
+        lo_ = self._new_local(bj, oty, line, like=op_place['l'] if not op_place.get('pr') else None)
+        ld = self._new_local(bj, 'isize', line)
+        lref = self._new_local(bj, '&' + pay_ty, line)
+        ltup = self._new_local(bj, '(&%s,)' % pay_ty, line)
+        lb = self._new_local(bj, 'bool', line)
+        blk['stmts'].append(_assign(lo_, copy.deepcopy(o), line))
+        oplace = {'l': lo_, 'pr': [], 'own': [], 'ty': oty}
+        blk['stmts'].append({'k': 'assign', 'p': {'l': ld, 'pr': [], 'own': [], 'ty': 'isize'}, 'rv': {'k': 'discr', 'p': copy.deepcopy(oplace)}, 'line': line})
+        nb = len(bj['blocks'])
+        b_some, b_none, b_un, b_test, b_keep = nb, nb + 1, nb + 2, nb + 3, nb + 4
+        blk['term'] = {'k': 'switch', 'd': {'m': {'l': ld, 'pr': [], 'own': [], 'ty': 'isize'}}, 'arms': [['0', b_none], ['1', b_some]], 'otherwise': b_un, 'dty': 'isize',
+                       'on': copy.deepcopy(oplace), 'adt': 'std::option::Option', 'variants': {'0': 'None', '1': 'Some'}, 'line': line, 'desugared': 'filter'}
+        pay = {'l': lo_, 'pr': ['@Some', '.0'], 'own': [None, 'std::option::Option'], 'ty': pay_ty}
+        call_once = {'k': {'v': 'std::ops::FnOnce::call_once', 'ty': '', 'fn': 'std::ops::FnOnce::call_once', 'fn_inst': 'std::ops::FnOnce::call_once', 'targs': []}}
+        none_stmt = {'k': 'assign', 'p': copy.deepcopy(dest), 'rv': {'k': 'agg', 'ak': 'adt', 'adt': 'std::option::Option', 'variant': 'None', 'fields': [], 'ops': []}, 'line': line}
+        # Some: test the predicate on a reference to the payload
+        pre = [{'k': 'assign', 'p': {'l': lref, 'pr': [], 'own': [], 'ty': '&' + pay_ty}, 'rv': {'k': 'ref', 'p': copy.deepcopy(pay), 'mut': False}, 'line': line},
+               {'k': 'assign', 'p': {'l': ltup, 'pr': [], 'own': [], 'ty': ''}, 'rv': {'k': 'agg', 'ak': 'tuple', 'ops': [{'m': {'l': lref, 'pr': [], 'own': [], 'ty': '&' + pay_ty}}]}, 'line': line}]
+        fop = copy.deepcopy(f)
+        if 'k' in fop:
+            callee = fop; cargs = [{'m': {'l': lref, 'pr': [], 'own': [], 'ty': '&' + pay_ty}}]; pre = pre[:1]
+        else:
+            callee = call_once; cargs = [fop, {'m': {'l': ltup, 'pr': [], 'own': [], 'ty': ''}}]
+        bj['blocks'].append({'cleanup': False, 'stmts': pre, 'term': {'k': 'call', 'f': callee, 'args': cargs, 'dest': {'l': lb, 'pr': [], 'own': [], 'ty': 'bool'}, 't': b_test, 'u': t.get('u', 'continue'), 'line': line}})
+        bj['blocks'].append({'cleanup': False, 'stmts': [copy.deepcopy(none_stmt)], 'term': {'k': 'goto', 't': t['t'], 'line': line}})
+        bj['blocks'].append({'cleanup': False, 'stmts': [], 'term': {'k': 'unreachable', 'line': line}})
+        b_drop = nb + 5          # (the value was there and the predicate said no: a block of its own, not the None arm's)
+        bj['blocks'].append({'cleanup': False, 'stmts': [], 'term': {'k': 'switch', 'd': {'m': {'l': lb, 'pr': [], 'own': [], 'ty': 'bool'}}, 'arms': [['0', b_drop]], 'otherwise': b_keep, 'dty': 'bool', 'line': line}})
+        bj['blocks'].append({'cleanup': False, 'stmts': [{'k': 'assign', 'p': copy.deepcopy(dest), 'rv': {'k': 'agg', 'ak': 'adt', 'adt': 'std::option::Option', 'variant': 'Some', 'fields': ['0'], 'ops': [{'m': copy.deepcopy(pay)}]}, 'line': line}],
+                             'term': {'k': 'goto', 't': t['t'], 'line': line}})
+        bj['blocks'].append({'cleanup': False, 'stmts': [copy.deepcopy(none_stmt)], 'term': {'k': 'goto', 't': t['t'], 'line': line}})
+        return True
 
     def _desugar_option_default(self, bj, x, tail):
         """`o.unwrap_or_default()` / `o.unwrap_or(v)` / `o.unwrap_or_else(f)` / `o.map_or_else(d, f)` => match o { Some(v) => v | f(v),
@@ -1018,6 +1082,7 @@ class Normaliser:
             return None
         rv = defs[0]['rv']
         if rv['k'] == 'agg' and rv.get('ak') == 'closure':
+            self._last_closure_env = rv.get('const_env')
             return rv['def']
         if rv['k'] in ('ref', 'copyderef') and not [e for e in rv['p'].get('pr', []) if e != '*']:
             return self._closure_of(bj, {'c': rv['p']}, depth + 1)
@@ -1025,13 +1090,15 @@ class Normaliser:
             return self._closure_of(bj, rv['op'], depth + 1)
         return None
 
-    def _inline_call(self, bj, x, cj, closure):
+    def _inline_call(self, bj, x, cj, closure, const_env=None):
         blk = bj['blocks'][x]
         t = blk['term']
         lo = len(bj['locals'])
         bo = len(bj['blocks'])
         cj = copy.deepcopy(cj)
         _instantiate_const_params(cj, ((t.get('f') or {}).get('k') or {}).get('targs') or [])
+        if const_env is not None:
+            _instantiate_const_params(cj, [const_env])
         bj['locals'].extend(cj['locals'])
         for d in cj.get('debug', []):
             if 'p' in d:
@@ -1081,32 +1148,114 @@ def _instantiate_const_params(cj, targs):
         if re.match(r'^[A-Z][A-Z0-9_]*$', k['v']) and k.get('ty') in ('bool', 'usize', 'u8', 'u16', 'u32', 'u64', 'isize', 'i32', 'i64'):
             names.add(k['v'])
     walk(cj['blocks'], collect)
+    if len(lits) == 1:
+        # closures built in this body are generic over the same parameters: remember the value for when they are inlined
+        for blk in cj['blocks']:
+            for s_ in blk['stmts']:
+                if s_['k'] == 'assign' and s_['rv']['k'] == 'agg' and s_['rv'].get('ak') == 'closure':
+                    s_['rv']['const_env'] = lits[0]
     if len(lits) != 1 or len(names) != 1:
         return
     name, val = list(names)[0], lits[0]
+    _subst_const_param(cj, name, val)
+
+
+def _subst_const_param(cj, name, val):
+    def walk(o, f):
+        if isinstance(o, dict):
+            if set(o.keys()) >= {'v', 'ty'} and isinstance(o.get('v'), str) and 'fn' not in o:
+                f(o)
+            for v in o.values():
+                walk(v, f)
+        elif isinstance(o, list):
+            for v in o:
+                walk(v, f)
     def subst(k):
         if k['v'] == name:
             k['v'] = val; k['from_const_param'] = True
     walk(cj['blocks'], subst)
-    # fold: `_f = const <lit>(from param); switch(_f)` in one block, or a switch on the constant itself
-    for blk in cj['blocks']:
-        t = blk['term']
-        if t['k'] != 'switch' or t.get('dty') != 'bool':
-            continue
-        v = None
-        d = t['d']
-        if 'k' in d and d['k'].get('from_const_param'):
-            v = d['k']['v']
-        else:
-            l = _bare_local(d)
+    # fold what the parameter decides: constant propagation restricted to values derived from the parameter (`FLAG`, `!FLAG`,
+    # copies, the short-circuit arms of `FLAG && x`), switches on them become gotos, unreachable blocks are blanked; repeated
+    # until nothing changes.  Constants that do not come from the parameter (`cfg!(..)`) are left alone - section 23.
+    for _round in range(6):
+        defs = {}
+        for bi, blk in enumerate(cj['blocks']):
+            if blk['term'].get('blanked'):
+                continue
             for s_ in blk['stmts']:
-                if s_['k'] == 'assign' and not s_['p'].get('pr') and s_['p']['l'] == l:
-                    op = s_['rv'].get('op') if s_['rv']['k'] == 'use' else None
-                    v = op['k']['v'] if op is not None and 'k' in op and op['k'].get('from_const_param') else None
-        if v in ('true', 'false'):
-            arms = {a: b for a, b in t['arms']}
-            tgt = arms.get('0', t['otherwise']) if v == 'false' else (arms.get('1') if '1' in arms else t['otherwise'])
-            blk['term'] = {'k': 'goto', 't': tgt, 'line': t.get('line', 0), 'const_param': name}
+                if s_['k'] == 'assign' and not s_['p'].get('pr'):
+                    defs.setdefault(s_['p']['l'], []).append(s_['rv'])
+                    s_['rv']['_blk'] = bi
+            tt = blk['term']
+            if tt['k'] == 'call' and tt.get('dest') and not tt['dest'].get('pr'):
+                defs.setdefault(tt['dest']['l'], []).append(None)
+        # locals tested by the switch of the very block that defines them from a literal: `if cfg!(..)` - never folded
+        own_switch = set()
+        for bi, blk in enumerate(cj['blocks']):
+            if blk['term']['k'] == 'switch' and _bare_local(blk['term']['d']) is not None:
+                l_ = _bare_local(blk['term']['d'])
+                if any(s_['k'] == 'assign' and not s_['p'].get('pr') and s_['p']['l'] == l_ for s_ in blk['stmts']):
+                    own_switch.add(l_)
+        known = {}
+        grew = True
+        while grew:
+            grew = False
+            for l, ds in defs.items():
+                if l in known or len(ds) != 1 or ds[0] is None:
+                    continue
+                rv = ds[0]
+                v = None
+                if rv['k'] == 'use':
+                    op = rv['op']
+                    if 'k' in op and op['k'].get('from_const_param') and op['k']['v'] in ('true', 'false'):
+                        v = op['k']['v'] == 'true'
+                    elif 'k' in op and _round > 0 and op['k'].get('v') in ('true', 'false') and op['k'].get('ty') == 'bool' and l not in own_switch:
+                        # the literal arm of a short-circuit (`FLAG && x` is `false` when FLAG is) once the other arm is gone
+                        v = op['k']['v'] == 'true'
+                    elif 'k' not in op:
+                        pl = op.get('m') or op.get('c')
+                        if not pl.get('pr') and pl['l'] in known:
+                            v = known[pl['l']]
+                elif rv['k'] == 'un' and rv.get('op') in ('Not',) or (rv['k'] == 'un' and rv.get('uop') == 'Not'):
+                    a = rv.get('a') or rv.get('op_') or (rv.get('ops') or [None])[0]
+                    pl = (a.get('m') or a.get('c')) if isinstance(a, dict) and 'k' not in a else None
+                    if pl and not pl.get('pr') and pl['l'] in known:
+                        v = not known[pl['l']]
+                if v is not None:
+                    known[l] = v; grew = True
+        # what is known is written down as the constant it is (so that the value also travels out of this body: the return
+        # value of an instantiated closure is threaded to the test its caller makes)
+        for blk in cj['blocks']:
+            for s_ in blk['stmts']:
+                if s_['k'] == 'assign' and not s_['p'].get('pr') and s_['p']['l'] in known and s_['rv']['k'] in ('un', 'use') and \
+                        not (s_['rv']['k'] == 'use' and 'k' in s_['rv']['op']):
+                    s_['rv'] = {'k': 'use', 'op': {'k': {'v': 'true' if known[s_['p']['l']] else 'false', 'ty': 'bool', 'from_const_param': True}}}
+        folded = False
+        for blk in cj['blocks']:
+            t = blk['term']
+            if t['k'] != 'switch' or t.get('dty') != 'bool':
+                continue
+            v = None
+            d = t['d']
+            if 'k' in d and d['k'].get('from_const_param') and d['k']['v'] in ('true', 'false'):
+                v = d['k']['v'] == 'true'
+            else:
+                l = _bare_local(d)
+                if l in known:
+                    v = known[l]
+                else:
+                    for s_ in blk['stmts']:
+                        if s_['k'] == 'assign' and not s_['p'].get('pr') and s_['p']['l'] == l:
+                            op = s_['rv'].get('op') if s_['rv']['k'] == 'use' else None
+                            v = (op['k']['v'] == 'true') if isinstance(op, dict) and 'k' in op and op['k'].get('from_const_param') and op['k']['v'] in ('true', 'false') else None
+            if v is not None:
+                arms = {a: b for a, b in t['arms']}
+                tgt = (arms.get('0', t['otherwise'])) if not v else (arms.get('1') if '1' in arms else t['otherwise'])
+                blk['term'] = {'k': 'goto', 't': tgt, 'line': t.get('line', 0), 'const_param': name}
+                folded = True
+        if not folded:
+            break
+        _prune_unreachable(cj)
 
 
 # enums whose freshly built values are threaded to the switch that inspects them (`let r = {.. None / Some(x) ..}; match r`)
@@ -1347,7 +1496,8 @@ COMBINATORS = {
 
 
 VALUE_COMBINATORS = ('core::bool::then_some', 'std::bool::then_some', 'std::option::Option::ok_or', 'std::option::Option::ok_or_else',
-                     'std::option::Option::unwrap_or_default', 'std::option::Option::unwrap_or', 'std::option::Option::unwrap_or_else', 'std::option::Option::map_or_else')
+                     'std::option::Option::unwrap_or_default', 'std::option::Option::unwrap_or', 'std::option::Option::unwrap_or_else', 'std::option::Option::map_or_else',
+                     'std::option::Option::filter')
 
 
 AWAIT_PLUMBING = ('IntoFuture::into_future', 'Pin::new_unchecked', 'Pin::<Ptr>::new_unchecked', 'future::get_context', 'Try::branch', 'Fn::call', 'FnMut::call_mut', 'FnOnce::call_once')
